@@ -83,9 +83,9 @@ def signature(case, o):
 
 # ---- corpus --------------------------------------------------------------------------
 
-K1_A = ["c0", "c0", "c1"] + ["jc0"] * 8 + ["c1", "c1"] + ["jc0"] * 6 + ["c0"]
-K1_B = ["c0", "c0", "c1"] + ["jc0"] * 8 + ["c1", "c1", "jc0", "jc0", "c0"]
-M3_SCHED = (["c0", "c0", "c1", "c1", "c2", "c2"] + ["jc0"] * 7 + ["jc1", "jc1", "jc0", "jc0", "jc0", "c0", "jc1", "jc1", "jc1",
+K1_A = ["c0", "c0", "c1"] + ["jc0"] * 9 + ["c1", "c1"] + ["jc0"] * 6 + ["c0"]
+K1_B = ["c0", "c0", "c1"] + ["jc0"] * 9 + ["c1", "c1", "jc0", "jc0", "c0"]
+M3_SCHED = (["c0", "c0", "c1", "c1", "c2", "c2"] + ["jc0"] * 8 + ["jc1", "jc1", "jc0", "jc0", "jc0", "c0", "jc1", "jc1", "jc1",
             "jc2", "jc2", "jc1", "jc1", "jc1", "jc1", "c1"] + ["jc2"] * 5 + ["c2"])
 
 
@@ -104,10 +104,10 @@ def corpus():
         # seeded C17-m3: A finishes, B was queued on A's lock and now runs L, C reads the table only then
         mk('idle', [['ret', None], ['ret', 50], ['raise', None]], ['coro', 'coro', 'coro'], M3_SCHED),
         # seeded C17-m4: the user thread goes on right after the forever-thread took L's lock, before it runs L
-        mk('forever', [['ret', 5], ['raise', None]], ['coro', 'coro'], ['m'] + ['jm'] * 7 + ['m'] * 4),
-        mk('race', [['ret', 5]], ['coro'], ['m'] + ['jm'] * 7 + ['m'] * 3 + ['c0'] * 3),
+        mk('forever', [['ret', 5], ['raise', None]], ['coro', 'coro'], ['m'] + ['jm'] * 8 + ['m'] * 4),
+        mk('race', [['ret', 5]], ['coro'], ['m'] + ['jm'] * 8 + ['m'] * 3 + ['c0'] * 3),
         # borrowers queue on the per-loop lock
-        mk('idle', [['ret', 50], ['raise', 5]], ['coro', 'coro'], ['c0', 'c0', 'c1', 'c1'] + ['jc0'] * 9 + ['jc1'] * 4),
+        mk('idle', [['ret', 50], ['raise', 5]], ['coro', 'coro'], ['c0', 'c0', 'c1', 'c1'] + ['jc0'] * 10 + ['jc1'] * 4),
         # the loop_in_thread doctest shape, two callers, and the racing start
         mk('forever', [['ret', 5], ['raise', 0]], ['task', 'coro']),
         mk('race', [['ret', 50], ['raise', 5]], ['coro', 'future']),
